@@ -812,7 +812,7 @@ impl World {
             }
         } else {
             let pool: &[&str] = if self.masks.no_cyclic_names {
-                &["a", "b", "c1", "c2", "d", "ab", "B", "x_1", "y"]
+                &["a", "b", "c1", "c2", "d", "ab", "B", "x_1", "y", "c18446744073709551616", "c99999999999999999999999"]
             } else {
                 &ITEM_NAMES
             };
